@@ -138,6 +138,7 @@ counters!(
     conc_switches,
     conc_steals,
     conc_loads_interleaved,
+    conc_same_path_ops,
     runs_nontrivial,
 );
 
@@ -232,6 +233,26 @@ pub struct RealDisk {
 
 #[derive(Debug)]
 pub struct HarnessError(pub String);
+
+/// One path shared by the client threads of a same-path `Concurrent` operation: which image is
+/// installed there, and its real-disk mirror.
+pub struct SharedDisk {
+    current: std::sync::atomic::AtomicUsize,
+    real: std::sync::Mutex<Option<RealDisk>>,
+    path: PathBuf,
+}
+
+impl SharedDisk {
+    fn get(&self) -> usize {
+        self.current.load(std::sync::atomic::Ordering::SeqCst)
+    }
+    fn install(&self, idx: usize) {
+        self.current.store(idx, std::sync::atomic::Ordering::SeqCst);
+        if let Some(r) = self.real.lock().unwrap_or_else(|e| e.into_inner()).as_mut() {
+            r.install(idx);
+        }
+    }
+}
 
 impl RealDisk {
     pub fn new(worker_dir: &Path, pool_dir: &Path) -> Result<RealDisk, HarnessError> {
@@ -337,10 +358,23 @@ pub struct World {
     v0_offsets_faulted: Vec<u64>, // bitset
     unarmed_opens: u64,
     sched: Option<(Arc<Scheduler>, usize)>,
+    shared: Option<Arc<SharedDisk>>,
 }
 
 impl World {
+    /// The image installed at the path right now.
+    fn cur(&self) -> usize {
+        match &self.shared {
+            Some(s) => s.get(),
+            None => self.current,
+        }
+    }
+
     fn install(&mut self, idx: usize) {
+        if let Some(s) = &self.shared {
+            s.install(idx);
+            return;
+        }
         self.current = idx;
         if let Some(r) = self.real.as_mut() {
             r.install(idx);
@@ -381,26 +415,28 @@ impl World {
                 // learnt about the path before (its size, say) describes the previous file.
                 if let (Some(to), false) = (a.plan.replace_before_open, a.replace_before_open_done) {
                     a.replace_before_open_done = true;
-                    let from = self.current;
+                    let from = match &self.shared {
+                        Some(s) => s.get(),
+                        None => self.current,
+                    };
                     a.fired.replace = Some((from, to, 0));
                     self.ctr.inc(C::replace_before_open_fired);
                     self.log.byte(b'r');
                     self.log.u64(to as u64);
-                    self.current = to;
-                    if let Some(r) = self.real.as_mut() {
-                        r.install(to);
-                    }
+                    self.install(to);
                 }
+                let now = self.cur();
                 let a = self.armed.as_mut().unwrap();
-                a.bound.push(self.current);
+                a.bound.push(now);
             }
         }
-        self.log.u64(self.current as u64);
+        let now = self.cur();
+        self.log.u64(now as u64);
         Ok(Box::new(SimFile {
             world: me.clone(),
             sched: self.sched.clone(),
             ctx: self.ctx.clone(),
-            image: self.current,
+            image: now,
             pos: 0,
         }))
     }
@@ -452,7 +488,10 @@ impl Read for SimFile {
         if let (Some((off, to)), false) = (a.plan.replace_at, a.replace_done) {
             if pos >= off.min(len) {
                 a.replace_done = true;
-                let from = w.current;
+                let from = match &w.shared {
+                    Some(sh) => sh.get(),
+                    None => w.current,
+                };
                 a.fired.replace = Some((from, to, pos));
                 w.ctr.inc(C::replace_mid_fired);
                 if ctx.images[from].table != ctx.images[to].table {
@@ -668,6 +707,7 @@ impl Sim {
             v0_offsets_faulted: vec![0; v0_len / 64 + 1],
             unarmed_opens: 0,
             sched: None,
+            shared: None,
         }));
         let w2 = world.clone();
         verif_seam::set_opener(Some(Box::new(move |p: &Path| {
@@ -700,6 +740,9 @@ impl Sim {
     }
 
     pub fn begin_run_with(&mut self, tag: u64, stat_lies: u8) {
+        if self.world.borrow().shared.is_some() {
+            return; // the path belongs to the parent operation
+        }
         let bypass = self.bypass;
         let n_pool = self.ctx.images.len();
         let mut w = self.world.borrow_mut();
@@ -745,6 +788,11 @@ impl Sim {
     pub fn set_sched(&mut self, s: Arc<Scheduler>, id: usize) {
         self.world.borrow_mut().sched = Some((s, id));
     }
+    pub fn set_shared(&mut self, sh: Arc<SharedDisk>) {
+        let mut w = self.world.borrow_mut();
+        w.sim_path = sh.path.clone();
+        w.shared = Some(sh);
+    }
     pub fn take_real(&mut self) -> Option<RealDisk> {
         self.world.borrow_mut().real.take()
     }
@@ -771,7 +819,9 @@ impl Sim {
             w.log.u64(sc.seed);
             w.deny = None;
             w.armed = None;
-            w.install(sc.initial);
+            if w.shared.is_none() {
+                w.install(sc.initial);
+            }
             w.ctr.inc(C::runs);
             match sc.stat_lies {
                 1 => w.ctr.inc(C::runs_stat_reports_empty),
@@ -792,7 +842,7 @@ impl Sim {
                 w.ctr.inc(C::runs_mixed);
             }
         }
-        let path = self.path();
+        let mut path = self.path();
         let mut clients: Vec<Option<Held>> = (0..sc.n_clients.max(1)).map(|_| None).collect();
         let mut sig = Fnv::default();
         sig.bytes(ctx.images[sc.initial].class.as_bytes());
@@ -845,7 +895,7 @@ impl Sim {
                         trace.push(format!("op{oi} Restart client {c}"));
                     }
                 }
-                Op::Concurrent { threads, sched_seed, switch_den } => {
+                Op::Concurrent { threads, sched_seed, switch_den, same_path } => {
                     if self.bypass {
                         continue;
                     }
@@ -863,6 +913,28 @@ impl Sim {
                     }
                     let sched = Arc::new(Scheduler::new(n, *sched_seed, *switch_den));
                     let mut disks: Vec<Option<RealDisk>> = (0..n).map(|_| self.thread_disks.pop()).collect();
+                    // Same path for everybody: the parent's own mirror becomes the shared disk.
+                    let shared: Option<Arc<SharedDisk>> = if *same_path {
+                        let mut rd = self.take_real();
+                        let path = match rd.as_mut() {
+                            Some(r) => {
+                                r.begin_run(crate::prng::mix(sc.seed, 777));
+                                r.stat_lies = 0;
+                                r.path.clone()
+                            }
+                            None => PathBuf::from(format!("/simdisk/shared.{}.list", sc.seed)),
+                        };
+                        let sh = Arc::new(SharedDisk {
+                            current: std::sync::atomic::AtomicUsize::new(threads[0].image),
+                            real: std::sync::Mutex::new(rd),
+                            path,
+                        });
+                        sh.install(threads[0].image);
+                        self.world.borrow_mut().ctr.inc(C::conc_same_path_ops);
+                        Some(sh)
+                    } else {
+                        None
+                    };
                     let run_seed = sc.seed;
                     type Out = (std::thread::Result<RunResult>, Counters, Option<RealDisk>);
                     let outs: Vec<Out> = std::thread::scope(|s| {
@@ -872,10 +944,14 @@ impl Sim {
                             let sched = sched.clone();
                             let disk = disks[j].take();
                             let trace_on = self.trace;
+                            let shared = shared.clone();
                             hs.push(s.spawn(move || {
                                 let mut sim = Sim::new(ctx, disk);
                                 sim.trace = trace_on;
                                 sim.set_sched(sched.clone(), j);
+                                if let Some(sh) = shared {
+                                    sim.set_shared(sh);
+                                }
                                 let tsc = Scenario {
                                     seed: crate::prng::mix(run_seed, 1000 + j as u64),
                                     stratum: "thread".into(),
@@ -906,6 +982,25 @@ impl Sim {
                         hs.into_iter().map(|h| h.join().expect("client thread wrapper panicked")).collect()
                     });
                     let st = sched.stats();
+                    if let Some(sh) = shared {
+                        // all children are gone: the mirror goes back to this world
+                        let now = sh.get();
+                        match Arc::try_unwrap(sh) {
+                            Ok(sd) => {
+                                let rd = sd.real.into_inner().unwrap_or_else(|e| e.into_inner());
+                                let mut w = self.world.borrow_mut();
+                                w.current = now;
+                                if let Some(r) = rd {
+                                    w.sim_path = r.path.clone();
+                                    w.real = Some(r);
+                                }
+                            }
+                            Err(_) => std::panic::panic_any(HarnessError(
+                                "shared disk still referenced after the client threads ended".into(),
+                            )),
+                        }
+                    }
+                    path = self.path(); // a same-path operation renames this world's file
                     let mut w = self.world.borrow_mut();
                     w.ctr.add(C::conc_threads, n as u64);
                     w.ctr.add(C::conc_yield_points, st.yields);
@@ -992,7 +1087,7 @@ impl Sim {
                         w.ctr.inc(C::loads);
                         w.ctr.add(C::eintr_planned, plan.eintr_at.len() as u64);
                         w.ctr.add(C::hard_planned, plan.hard.len() as u64);
-                        let cur_len = ctx.images[w.current].len();
+                        let cur_len = ctx.images[w.cur()].len();
                         w.ctr.add(
                             C::hard_at_eof_planned,
                             plan.hard.iter().filter(|h| h.offset >= cur_len).count() as u64,
@@ -1019,7 +1114,7 @@ impl Sim {
                             fired: Fired::default(),
                             last_was_eintr_at: None,
                         });
-                        (w.current, budget)
+                        (w.cur(), budget)
                     };
                     let r = catch_unwind(AssertUnwindSafe(|| LeapSecondsFile::from_path(&path)));
                     let (a, image_at_end) = {
@@ -1029,7 +1124,7 @@ impl Sim {
                             w.ctr.v[C::max_reads_in_one_load as usize] = a.reads;
                             w.ctr.v[C::budget_of_that_load as usize] = budget;
                         }
-                        (a, w.current)
+                        (a, w.cur())
                     };
                     let fired = &a.fired;
                     if fired.any_error_like() || fired.replace.is_some() {
@@ -1254,7 +1349,7 @@ impl Sim {
                         }));
                         let mut w = self.world.borrow_mut();
                         w.ctr.inc(C::queries_with_provider);
-                        if h.image != w.current && ctx.images[h.image].table != ctx.images[w.current].table {
+                        if h.image != w.cur() && ctx.images[h.image].table != ctx.images[w.cur()].table {
                             w.ctr.inc(C::queries_stale_provider);
                         }
                         w.ctr.add(C::o4_model_probes, stats.model_compared);
